@@ -12,7 +12,7 @@ import vlib
 from vlib import Report, run_tlc, tlc_must_pass, xv_json, read_ndjson, workdir
 
 PID = "C06"
-CONF = {"quick": [(1, 3), (2, 2), (3, 2)], "thorough": [(1, 3), (2, 3), (3, 3)]}
+CONF = {"quick": [(1, 3), (2, 2), (3, 2), (4, 3)], "thorough": [(1, 3), (2, 3), (3, 3), (4, 4)]}
 RANDOM = {"quick": (400, 30), "thorough": (8000, 40)}
 CFG = """SPECIFICATION Spec
 CONSTANTS
